@@ -6,6 +6,7 @@ the symbolic differentiator `Expr.D`, proved once:
 import PyttbModel.Alg.GcpExpr
 import Mathlib.Analysis.SpecialFunctions.Pow.Deriv
 import Mathlib.Analysis.Calculus.Deriv.Abs
+import Mathlib.Analysis.SpecialFunctions.Sqrt
 namespace Pyttb
 open Real Filter Topology
 
@@ -20,6 +21,15 @@ theorem sgn_mul_self (v : ℝ) : sgn v * v = |v| := by
   · simp [sgn_of_neg h, abs_of_neg h]
   · simp [h, sgn_zero]
   · simp [sgn_of_pos h, abs_of_pos h]
+
+/-- `1` where `u < v`, `0` elsewhere (a NumPy comparison as a number).  The three selectors are separate
+functions so that unfolding them after their arguments have been evaluated leaves conditions (and their
+decidability instances) about the evaluated arguments. -/
+noncomputable def indLt (u v : ℝ) : ℝ := if u < v then 1 else 0
+/-- `np.logical_not` as a number -/
+noncomputable def indZero (u : ℝ) : ℝ := if u = 0 then 1 else 0
+/-- `np.where(c, u, v)` -/
+noncomputable def sel (c u v : ℝ) : ℝ := if c = 0 then v else u
 
 namespace Expr
 
@@ -41,51 +51,67 @@ noncomputable def evalR (x p : ℝ) : Expr → ℝ → ℝ
   | exp a, m => Real.exp (a.evalR x p m)
   | abs a, m => |a.evalR x p m|
   | sign a, m => sgn (a.evalR x p m)
-  | lt a b, m => if a.evalR x p m < b.evalR x p m then 1 else 0
-  | lnot a, m => if a.evalR x p m = 0 then 1 else 0
+  | lt a b, m => indLt (a.evalR x p m) (b.evalR x p m)
+  | lnot a, m => indZero (a.evalR x p m)
+  | sqrt a, m => Real.sqrt (a.evalR x p m)
+  | ite c a b, m => sel (c.evalR x p m) (a.evalR x p m) (b.evalR x p m)
 
 /-- Where the expression is a differentiable function of the model value in the way the
-differentiator assumes: no division by zero, logarithms and real powers of positive
-numbers only (real exponents not depending on the model value), no `abs` / `sign` at
-zero, no comparison at equality, `logical_not` of truth values only. -/
+differentiator assumes: no division by zero, logarithms, square roots and real powers of
+positive numbers only (real exponents not depending on the model value), no `abs` / `sign`
+at zero, no comparison at equality, `logical_not` of truth values only; a selection
+(`np.where`, `np.maximum`, …) has a truth value as its condition, away from the condition's
+switching points, and only the selected branch has to be defined. -/
 def Defined (x p : ℝ) : Expr → ℝ → Prop
   | var, _ | data, _ | param, _ | const _, _ | pi, _ => True
   | add a b, m | sub a b, m | mul a b, m => a.Defined x p m ∧ b.Defined x p m
   | div a b, m => a.Defined x p m ∧ b.Defined x p m ∧ b.evalR x p m ≠ 0
   | neg a, m | powNat a _, m | exp a, m => a.Defined x p m
   | powReal a q, m => a.Defined x p m ∧ q.noVar = true ∧ 0 < a.evalR x p m
-  | log a, m => a.Defined x p m ∧ 0 < a.evalR x p m
+  | log a, m | sqrt a, m => a.Defined x p m ∧ 0 < a.evalR x p m
   | abs a, m | sign a, m => a.Defined x p m ∧ a.evalR x p m ≠ 0
   | lt a b, m => a.Defined x p m ∧ b.Defined x p m ∧ a.evalR x p m ≠ b.evalR x p m
   | lnot a, m => a.isBool = true ∧ a.Defined x p m
+  | ite c a b, m => c.isBool = true ∧ c.Defined x p m ∧
+      (if c.evalR x p m = 0 then b.Defined x p m else a.Defined x p m)
 
-theorem evalR_noVar (x p : ℝ) : ∀ (e : Expr), e.noVar = true → ∀ m m', e.evalR x p m = e.evalR x p m'
-  | var, h, _, _ => by simp [noVar] at h
-  | data, _, _, _ | param, _, _, _ | const _, _, _, _ | pi, _, _, _ => rfl
-  | add a b, h, m, m' | sub a b, h, m, m' | mul a b, h, m, m' | div a b, h, m, m'
-  | powReal a b, h, m, m' | lt a b, h, m, m' => by
+theorem evalR_noVar (x p : ℝ) (e : Expr) : e.noVar = true → ∀ m m', e.evalR x p m = e.evalR x p m' := by
+  induction e with
+  | var => intro h; simp [noVar] at h
+  | data | param | const _ | pi => intro _ _ _; rfl
+  | add a b iha ihb | sub a b iha ihb | mul a b iha ihb | div a b iha ihb | powReal a b iha ihb
+  | lt a b iha ihb =>
+      intro h m m'
       simp only [noVar, Bool.and_eq_true] at h
-      simp only [evalR, evalR_noVar x p a h.1 m m', evalR_noVar x p b h.2 m m']
-  | neg a, h, m, m' | powNat a _, h, m, m' | log a, h, m, m' | exp a, h, m, m'
-  | abs a, h, m, m' | sign a, h, m, m' | lnot a, h, m, m' => by
+      simp only [evalR, iha h.1 m m', ihb h.2 m m']
+  | neg a iha | powNat a _ iha | log a iha | exp a iha | abs a iha | sign a iha | lnot a iha
+  | sqrt a iha =>
+      intro h m m'
       simp only [noVar] at h
-      simp only [evalR, evalR_noVar x p a h m m']
+      simp only [evalR, iha h m m']
+  | ite c a b ihc iha ihb =>
+      intro h m m'
+      simp only [noVar, Bool.and_eq_true] at h
+      simp only [evalR, ihc h.1.1 m m', iha h.1.2 m m', ihb h.2 m m']
 
-theorem evalR_isBool (x p : ℝ) : ∀ (e : Expr), e.isBool = true → ∀ m, e.evalR x p m = 0 ∨ e.evalR x p m = 1
-  | lt a b, _, m => by
-      simp only [evalR]; split <;> simp
-  | lnot a, _, m => by
-      simp only [evalR]; split <;> simp
-  | var, h, _ | data, h, _ | param, h, _ | const _, h, _ | pi, h, _ | add _ _, h, _ | sub _ _, h, _
-  | mul _ _, h, _ | div _ _, h, _ | neg _, h, _ | powNat _ _, h, _ | powReal _ _, h, _ | log _, h, _
-  | exp _, h, _ | abs _, h, _ | sign _, h, _ => by simp [isBool] at h
+theorem evalR_isBool (x p : ℝ) (e : Expr) : e.isBool = true → ∀ m, e.evalR x p m = 0 ∨ e.evalR x p m = 1 := by
+  induction e with
+  | lt a b _ _ => intro _ m; simp only [evalR, indLt]; split <;> simp
+  | lnot a _ => intro _ m; simp only [evalR, indZero]; split <;> simp
+  | mul a b iha ihb =>
+      intro h m
+      simp only [isBool, Bool.and_eq_true] at h
+      rcases iha h.1 m with h0 | h1 <;> rcases ihb h.2 m with h0' | h1' <;> simp [evalR, *]
+  | var | data | param | const _ | pi | add _ _ _ _ | sub _ _ _ _ | div _ _ _ _ | neg _ _
+  | powNat _ _ _ | powReal _ _ _ _ | log _ _ | exp _ _ | abs _ _ | sign _ _ | sqrt _ _
+  | ite _ _ _ _ _ _ => intro h; simp [isBool] at h
 
 /-- `logical_not` of a truth value is `1 -` it. -/
 theorem evalR_lnot_of_isBool (x p : ℝ) (e : Expr) (h : e.isBool = true) (m : ℝ) :
     (lnot e).evalR x p m = 1 - e.evalR x p m := by
   rcases evalR_isBool x p e h m with h0 | h1
-  · simp [evalR, h0]
-  · simp [evalR, h1]
+  · simp [evalR, indZero, h0]
+  · simp [evalR, indZero, h1]
 
 private theorem hasDerivAt_sgn {f : ℝ → ℝ} {f' m : ℝ} (hf : HasDerivAt f f' m) (h0 : f m ≠ 0) :
     HasDerivAt (fun y => sgn (f y)) 0 m := by
@@ -111,62 +137,102 @@ private theorem hasDerivAt_absf {f : ℝ → ℝ} {f' m : ℝ} (hf : HasDerivAt 
     filter_upwards [this] with y hy
     simp [abs_of_pos hy]
 
-private theorem hasDerivAt_ltf {f g : ℝ → ℝ} {f' g' m : ℝ} (hf : HasDerivAt f f' m)
-    (hg : HasDerivAt g g' m) (h0 : f m ≠ g m) :
-    HasDerivAt (fun y => if f y < g y then (1 : ℝ) else 0) 0 m := by
+/-- a comparison away from equality keeps its value on a neighbourhood -/
+private theorem eventually_ltf {f g : ℝ → ℝ} {m : ℝ} (hf : ContinuousAt f m) (hg : ContinuousAt g m)
+    (h0 : f m ≠ g m) :
+    ∀ᶠ y in 𝓝 m, (if f y < g y then (1 : ℝ) else 0) = if f m < g m then 1 else 0 := by
   rcases lt_or_gt_of_ne h0 with h | h
-  · have : ∀ᶠ y in 𝓝 m, f y < g y := hf.continuousAt.eventually_lt hg.continuousAt h
-    refine (hasDerivAt_const m (1 : ℝ)).congr_of_eventuallyEq ?_
-    filter_upwards [this] with y hy
-    simp [hy]
-  · have : ∀ᶠ y in 𝓝 m, g y < f y := hg.continuousAt.eventually_lt hf.continuousAt h
-    refine (hasDerivAt_const m (0 : ℝ)).congr_of_eventuallyEq ?_
-    filter_upwards [this] with y hy
-    simp [not_lt.2 hy.le]
+  · filter_upwards [hf.eventually_lt hg h] with y hy
+    simp [hy, h]
+  · filter_upwards [hg.eventually_lt hf h] with y hy
+    simp [not_lt.2 hy.le, not_lt.2 h.le]
 
-/-- **The differentiator is correct**: wherever the expression is `Defined`, the function
-`m ↦ evalR e x p m` has derivative `evalR (D e) x p m` at `m`. -/
-theorem hasDerivAt_D (x p : ℝ) : ∀ (e : Expr) (m : ℝ), e.Defined x p m →
-    HasDerivAt (fun m => e.evalR x p m) (e.D.evalR x p m) m
-  | var, m, _ => by simpa [evalR, D] using hasDerivAt_id' m
-  | data, m, _ => by simpa [evalR, D] using hasDerivAt_const m x
-  | param, m, _ => by simpa [evalR, D] using hasDerivAt_const m p
-  | const q, m, _ => by simpa [evalR, D] using hasDerivAt_const m (q : ℝ)
-  | pi, m, _ => by simpa [evalR, D] using hasDerivAt_const m Real.pi
-  | add a b, m, h => by
-      simpa [evalR, D] using (hasDerivAt_D x p a m h.1).fun_add (hasDerivAt_D x p b m h.2)
-  | sub a b, m, h => by
-      simpa [evalR, D] using (hasDerivAt_D x p a m h.1).fun_sub (hasDerivAt_D x p b m h.2)
-  | mul a b, m, h => by
-      simpa [evalR, D] using (hasDerivAt_D x p a m h.1).fun_mul (hasDerivAt_D x p b m h.2)
-  | div a b, m, h => by
-      simpa [evalR, D] using (hasDerivAt_D x p a m h.1).fun_div (hasDerivAt_D x p b m h.2.1) h.2.2
-  | neg a, m, h => by
-      simpa [evalR, D] using (hasDerivAt_D x p a m h).fun_neg
-  | powNat a n, m, h => by
-      simpa [evalR, D] using (hasDerivAt_D x p a m h).fun_pow n
-  | powReal a q, m, h => by
+/-- **The differentiator is correct**, together with the fact it needs for selections: a
+truth value that is `Defined` at `m` keeps its value on a neighbourhood of `m`. -/
+theorem hasDerivAt_D_and_const (x p : ℝ) (e : Expr) :
+    (∀ m, e.Defined x p m → HasDerivAt (fun m => e.evalR x p m) (e.D.evalR x p m) m) ∧
+    (e.isBool = true → ∀ m, e.Defined x p m → ∀ᶠ y in 𝓝 m, e.evalR x p y = e.evalR x p m) := by
+  induction e with
+  | var => exact ⟨fun m _ => by simpa [evalR, D] using hasDerivAt_id' m, fun h => by simp [isBool] at h⟩
+  | data => exact ⟨fun m _ => by simpa [evalR, D] using hasDerivAt_const m x, fun h => by simp [isBool] at h⟩
+  | param => exact ⟨fun m _ => by simpa [evalR, D] using hasDerivAt_const m p, fun h => by simp [isBool] at h⟩
+  | const q => exact ⟨fun m _ => by simpa [evalR, D] using hasDerivAt_const m (q : ℝ), fun h => by simp [isBool] at h⟩
+  | pi => exact ⟨fun m _ => by simpa [evalR, D] using hasDerivAt_const m Real.pi, fun h => by simp [isBool] at h⟩
+  | add a b iha ihb =>
+      exact ⟨fun m h => by simpa [evalR, D] using (iha.1 m h.1).fun_add (ihb.1 m h.2),
+        fun h => by simp [isBool] at h⟩
+  | sub a b iha ihb =>
+      exact ⟨fun m h => by simpa [evalR, D] using (iha.1 m h.1).fun_sub (ihb.1 m h.2),
+        fun h => by simp [isBool] at h⟩
+  | mul a b iha ihb =>
+      refine ⟨fun m h => by simpa [evalR, D] using (iha.1 m h.1).fun_mul (ihb.1 m h.2), fun hb m h => ?_⟩
+      simp only [isBool, Bool.and_eq_true] at hb
+      filter_upwards [iha.2 hb.1 m h.1, ihb.2 hb.2 m h.2] with y h1 h2
+      simp only [evalR, h1, h2]
+  | div a b iha ihb =>
+      exact ⟨fun m h => by simpa [evalR, D] using (iha.1 m h.1).fun_div (ihb.1 m h.2.1) h.2.2,
+        fun h => by simp [isBool] at h⟩
+  | neg a iha =>
+      exact ⟨fun m h => by simpa [evalR, D] using (iha.1 m h).fun_neg, fun h => by simp [isBool] at h⟩
+  | powNat a n iha =>
+      exact ⟨fun m h => by simpa [evalR, D] using (iha.1 m h).fun_pow n, fun h => by simp [isBool] at h⟩
+  | powReal a q iha _ =>
+      refine ⟨fun m h => ?_, fun h => by simp [isBool] at h⟩
       have hq : ∀ y, q.evalR x p y = q.evalR x p m := fun y => evalR_noVar x p q h.2.1 y m
-      have := (hasDerivAt_D x p a m h.1).rpow_const (p := q.evalR x p m) (Or.inl h.2.2.ne')
+      have := (iha.1 m h.1).rpow_const (p := q.evalR x p m) (Or.inl h.2.2.ne')
       simp only [evalR, D, hq]
       refine this.congr_deriv ?_
       simp only [Rat.cast_one]
       ring
-  | log a, m, h => by
-      simpa [evalR, D] using (hasDerivAt_D x p a m h.1).log h.2.ne'
-  | exp a, m, h => by
-      simpa [evalR, D] using (hasDerivAt_D x p a m h).exp
-  | abs a, m, h => by
-      simpa [evalR, D] using hasDerivAt_absf (hasDerivAt_D x p a m h.1) h.2
-  | sign a, m, h => by
-      simpa [evalR, D] using hasDerivAt_sgn (hasDerivAt_D x p a m h.1) h.2
-  | lt a b, m, h => by
-      simpa [evalR, D] using hasDerivAt_ltf (hasDerivAt_D x p a m h.1) (hasDerivAt_D x p b m h.2.1) h.2.2
-  | lnot a, m, h => by
-      have e : (fun y => (lnot a).evalR x p y) = fun y => 1 - a.evalR x p y :=
-        funext (evalR_lnot_of_isBool x p a h.1)
-      rw [e]
-      simpa [evalR, D] using (hasDerivAt_D x p a m h.2).const_sub 1
+  | log a iha =>
+      exact ⟨fun m h => by simpa [evalR, D] using (iha.1 m h.1).log h.2.ne', fun h => by simp [isBool] at h⟩
+  | exp a iha =>
+      exact ⟨fun m h => by simpa [evalR, D] using (iha.1 m h).exp, fun h => by simp [isBool] at h⟩
+  | abs a iha =>
+      exact ⟨fun m h => by simpa [evalR, D] using hasDerivAt_absf (iha.1 m h.1) h.2,
+        fun h => by simp [isBool] at h⟩
+  | sign a iha =>
+      exact ⟨fun m h => by simpa [evalR, D] using hasDerivAt_sgn (iha.1 m h.1) h.2,
+        fun h => by simp [isBool] at h⟩
+  | lt a b iha ihb =>
+      have hc : ∀ m, (lt a b).Defined x p m →
+          ∀ᶠ y in 𝓝 m, (lt a b).evalR x p y = (lt a b).evalR x p m := fun m h =>
+        eventually_ltf (iha.1 m h.1).continuousAt (ihb.1 m h.2.1).continuousAt h.2.2
+      refine ⟨fun m h => ?_, fun _ => hc⟩
+      have : HasDerivAt (fun _ : ℝ => (lt a b).evalR x p m) 0 m := hasDerivAt_const m _
+      simpa [D, evalR] using this.congr_of_eventuallyEq (hc m h)
+  | lnot a iha =>
+      refine ⟨fun m h => ?_, fun hb m h => ?_⟩
+      · have e : (fun y => (lnot a).evalR x p y) = fun y => 1 - a.evalR x p y :=
+          funext (evalR_lnot_of_isBool x p a h.1)
+        rw [e]
+        simpa [evalR, D] using (iha.1 m h.2).const_sub 1
+      · filter_upwards [iha.2 h.1 m h.2] with y hy
+        simp only [evalR, hy]
+  | sqrt a iha =>
+      refine ⟨fun m h => ?_, fun h => by simp [isBool] at h⟩
+      have := (iha.1 m h.1).sqrt h.2.ne'
+      simpa [evalR, D] using this
+  | ite c a b ihc iha ihb =>
+      refine ⟨fun m h => ?_, fun h => by simp [isBool] at h⟩
+      have hev := ihc.2 h.1 m h.2.1
+      by_cases h0 : c.evalR x p m = 0
+      · have hb : b.Defined x p m := by simpa [h0] using h.2.2
+        have := (ihb.1 m hb).congr_of_eventuallyEq (f₁ := fun y => (ite c a b).evalR x p y) (by
+          filter_upwards [hev] with y hy
+          simp only [evalR, sel, hy, h0, if_true])
+        simpa [evalR, D, sel, h0] using this
+      · have ha : a.Defined x p m := by simpa [h0] using h.2.2
+        have := (iha.1 m ha).congr_of_eventuallyEq (f₁ := fun y => (ite c a b).evalR x p y) (by
+          filter_upwards [hev] with y hy
+          simp only [evalR, sel, hy, h0, if_false])
+        simpa [evalR, D, sel, h0] using this
+
+/-- **The differentiator is correct**: wherever the expression is `Defined`, the function
+`m ↦ evalR e x p m` has derivative `evalR (D e) x p m` at `m`. -/
+theorem hasDerivAt_D (x p : ℝ) (e : Expr) (m : ℝ) (h : e.Defined x p m) :
+    HasDerivAt (fun m => e.evalR x p m) (e.D.evalR x p m) m :=
+  (hasDerivAt_D_and_const x p e).1 m h
 
 end Expr
 
